@@ -53,6 +53,9 @@ func ServeWorker(handlers map[string]Handler) {
 }
 
 type Worker struct {
+	// Recycle > 0 restarts the worker process after that many jobs (bounds leaked goroutines / memory).
+	Recycle int
+	jobs    int
 	name   string
 	env    []string
 	cmd    *exec.Cmd
@@ -126,11 +129,16 @@ type JobResult struct {
 func (w *Worker) Do(job any, out any, horizon time.Duration) (JobResult, error) {
 	w.mu.Lock()
 	defer w.mu.Unlock()
+	if w.cmd != nil && w.Recycle > 0 && w.jobs >= w.Recycle {
+		w.closeLocked()
+	}
 	if w.cmd == nil {
 		if err := w.start(); err != nil {
 			return JobResult{}, err
 		}
+		w.jobs = 0
 	}
+	w.jobs++
 	b, err := json.Marshal(job)
 	if err != nil {
 		return JobResult{}, err
@@ -190,6 +198,10 @@ func (w *Worker) dead(start time.Time) JobResult {
 func (w *Worker) Close() {
 	w.mu.Lock()
 	defer w.mu.Unlock()
+	w.closeLocked()
+}
+
+func (w *Worker) closeLocked() {
 	if w.cmd != nil {
 		w.stdin.Close()
 		done := make(chan struct{})
@@ -213,7 +225,9 @@ type Pool struct {
 func NewPool(name string, n int, env ...string) *Pool {
 	p := &Pool{ch: make(chan *Worker, n), n: n}
 	for i := 0; i < n; i++ {
-		p.ch <- NewWorker(name, env...)
+		w := NewWorker(name, env...)
+		w.Recycle = 400
+		p.ch <- w
 	}
 	return p
 }
